@@ -3,6 +3,7 @@
 -/
 import SplVerif.Lemmas.ParserTables
 import SplVerif.Spec.Grammar
+import SplVerif.Lemmas.ParseConform
 
 namespace Spl.C04
 
@@ -15,5 +16,33 @@ theorem relativize_info (p : Program) : (Grammar.relativize p).info = p.info := 
 /-- The number and order of global declarations is preserved by the range convention change. -/
 theorem relativize_decls_length (p : Program) : (Grammar.relativize p).decls.length = p.decls.length := by
   simp [Grammar.relativize]
+
+/-- **Expressions are parsed into the derivation the grammar mandates** (operator precedence,
+    left associativity, non-associative comparison, unary minus, parentheses, indexed variables at any
+    nesting depth, any comments in between).  For every token array, every position directly behind a
+    token and every state of the parser: whenever the grammar specification derives an expression
+    `e` from the non-comment tokens at that position, `Expression::parse` of the model succeeds,
+    consumes exactly those tokens, reports nothing, and returns `e` in the implementation's range
+    convention (ranges relative to the enclosing `Reference`, each node covering its own tokens plus
+    the comment run in front of its first token). -/
+theorem expression_conforms (ctx : Parse.Ctx) {fs : Nat} {ts rest : Grammar.Toks} {e : Expr} {sp : Grammar.Span}
+    {s : Parse.St} (hs : Grammar.expr ⟨ctx.toks⟩ fs ts = some (e, sp, rest)) (hat : ParseConform.At ctx s ts) :
+    Parse.parseExpression ctx (Parse.exprFuel ctx) none s =
+      .ok { s with pos := sp.last + 1 } (Grammar.relExpr s.refPos e) ∧
+    e.info.range = ⟨s.pos, sp.last + 1⟩ ∧ ParseConform.At ctx { s with pos := sp.last + 1 } rest :=
+  let ⟨a, _, _, b, c⟩ := ParseConform.expression_conforms ctx hs hat
+  ⟨a, b, c⟩
+
+/-- the entry conditions hold at the start of every token array -/
+theorem at_start (ctx : Parse.Ctx) : ParseConform.At ctx { pos := 0 } (ParseConform.tsFrom ctx.toks 0) :=
+  ⟨Or.inl rfl, Nat.le_refl _, rfl⟩
+
+/-- Non-vacuity: the specification derives `1 + // c ⏎ 2 * x` from its seven tokens (comment included). -/
+def exampleToks : List Token :=
+  [⟨.Int (.Int 1), ⟨0, 1⟩, []⟩, ⟨.Plus, ⟨1, 2⟩, []⟩, ⟨.Comment "c".toList, ⟨2, 5⟩, []⟩, ⟨.Int (.Int 2), ⟨5, 6⟩, []⟩,
+   ⟨.Times, ⟨6, 7⟩, []⟩, ⟨.Ident "x".toList, ⟨7, 8⟩, []⟩, ⟨.Eof, ⟨8, 8⟩, []⟩]
+
+example : (Grammar.expr ⟨exampleToks.toArray⟩ 20 (ParseConform.tsFrom exampleToks.toArray 0)).isSome = true := by
+  decide +kernel
 
 end Spl.C04
